@@ -128,22 +128,25 @@ def main():
                     from line_profiler.autoprofile import autoprofile as AP
                     seen = {}
 
-                    def fake_run(script_file, ns, prof_mod=None, profile_imports=False, as_module=False):
-                        # what the real run() does up to (not including) compile/exec: the rewritten tree
-                        seen['script_file'] = script_file
-                        Profiler = AP.AstTreeModuleProfiler if as_module else AP.AstTreeProfiler
-                        seen['tree'] = Profiler(script_file, prof_mod, profile_imports).profile()
+                    class _Captured(BaseException):
+                        pass
+
+                    def fake_compile(tree, filename, mode, *a, **k):
+                        # the real run() ran up to here: this is the rewritten tree it is about to compile and execute
+                        seen['script_file'] = filename
+                        seen['tree'] = tree
+                        raise _Captured()
                     orig_run, old_cwd, old_argv, old_path = AP.run, os.getcwd(), list(sys.argv), list(sys.path)
-                    AP.run = fake_run
+                    AP.compile = fake_compile        # shadows the builtin inside line_profiler.autoprofile.autoprofile only
                     os.chdir(search_root)
                     try:
                         modname = '.'.join(comps + ([] if stem == '__init__' else [stem]))
                         try:
                             kernprof.main(['-l', '-o', os.path.join(base, 'out.lprof'), '-p', comps[0], '-m', modname])
-                        except SystemExit:
+                        except (SystemExit, _Captured):
                             pass
                     finally:
-                        AP.run = orig_run
+                        del AP.compile
                         os.chdir(old_cwd)
                         sys.argv[:] = old_argv
                         sys.path[:] = old_path
